@@ -338,6 +338,7 @@ func lookup(instr *ssa.Lookup, x, idx value) value {
 // numeric datatypes and strings.  Both operands must have identical
 // dynamic type.
 func binop(op token.Token, t types.Type, x, y value) value {
+	x, y = forceLazy(x), forceLazy(y)
 	if isSym(x) || isSym(y) {
 		return symBinop(op, x, y)
 	}
@@ -843,6 +844,7 @@ func eqnil(t types.Type, x, y value) bool {
 }
 
 func unop(fr *frame, instr *ssa.UnOp, x value) value {
+	x = forceLazy(x)
 	if s, ok := x.(sv); ok {
 		return symUnop(instr.Op, s)
 	}
@@ -1192,6 +1194,13 @@ func widen(x value) value {
 // the result.
 // Possible cases are described with the ssa.Convert operator.
 func conv(t_dst, t_src types.Type, x value) value {
+	if l, ok := x.(lazyFold); ok {
+		// uint32 <-> C.uint32_t round trips around crc32_write keep the lazy state
+		if k, isB := basicKindOf(t_dst); isB && k == types.Uint32 {
+			return l
+		}
+		x = l.force()
+	}
 	ut_src := t_src.Underlying()
 	ut_dst := t_dst.Underlying()
 
